@@ -130,6 +130,8 @@ type Cluster struct {
 	FaultSteps                                                     int
 	cmd                                                            *cmdFeed
 	sending                                                        int // actor idx whose handlers are running (sender attribution)
+	// CutLoss: every message sent across a cut link is lost (instead of half of them being delayed).
+	CutLoss bool
 	// NoFaults switches off fault injection inside lockstepRound (synchronous suffix of C05).
 	NoFaults bool
 	// OnHang is called by the execution watchdog with the innermost repository frame the simulator thread is stuck in.
@@ -266,7 +268,7 @@ func (c *Cluster) onSend(from *Actor, m vk.SentMsg) {
 }
 
 func (c *Cluster) enqueue(from, to *Actor, msg any) {
-	if !c.linkOpen(from, to) && c.Rng.Bool() {
+	if !c.linkOpen(from, to) && (c.CutLoss || c.Rng.Bool()) {
 		c.Dropped++ // loss inside the partition model: only across a cut link
 		return
 	}
